@@ -324,9 +324,15 @@ type batchFlowActor[T any] struct {
 	upstreamCredit   int64
 	downstreamDemand int64
 	timerActive      bool
-	schedRef         string
-	config           StageConfig
-	metrics          *stageMetrics
+	// flushDue is set when the maxWait timer fired (or a full window could not be emitted) while
+	// downstream had no demand: the next streamRequest emits the pending window.
+	flushDue bool
+	// completing is set once upstream has completed; completion is propagated only after the
+	// window has been delivered.
+	completing bool
+	schedRef   string
+	config     StageConfig
+	metrics    *stageMetrics
 }
 
 // newBatchFlowActor creates a batchFlowActor that collects at most maxSize elements
@@ -357,6 +363,13 @@ func (a *batchFlowActor[T]) Receive(rctx *actor.ReceiveContext) {
 
 	case *streamRequest:
 		a.downstreamDemand += msg.n
+		// Emit whatever became due while downstream had no demand.
+		a.flush(rctx, a.flushDue || a.completing)
+		if a.completing && len(a.window) == 0 {
+			rctx.Tell(a.downstream, &streamComplete{subID: a.subID})
+			rctx.Shutdown()
+			return
+		}
 		a.maybeRequestUpstream(rctx)
 
 	case *streamElement:
@@ -381,21 +394,20 @@ func (a *batchFlowActor[T]) Receive(rctx *actor.ReceiveContext) {
 				rctx.Self(), a.maxWait, actor.WithReference(a.schedRef))
 		}
 
-		if len(a.window) >= a.maxSize {
-			a.flush(rctx)
-		}
+		a.flush(rctx, a.flushDue)
 		a.maybeRequestUpstream(rctx)
 
 	case *batchFlush:
 		a.timerActive = false
-		if len(a.window) > 0 {
-			a.flush(rctx)
-		}
+		a.flush(rctx, true)
 
 	case *streamComplete:
-		// Flush any remaining elements before propagating completion.
+		// Deliver the remaining elements before propagating completion. When downstream has
+		// no demand right now the actor stays alive and finishes on the next streamRequest.
+		a.completing = true
+		a.flush(rctx, true)
 		if len(a.window) > 0 {
-			a.flush(rctx)
+			return
 		}
 
 		rctx.Tell(a.downstream, &streamComplete{subID: a.subID})
@@ -415,27 +427,40 @@ func (a *batchFlowActor[T]) Receive(rctx *actor.ReceiveContext) {
 	}
 }
 
-// flush emits the current window as a single batch element to downstream,
-// provided demand is available.
-func (a *batchFlowActor[T]) flush(rctx *actor.ReceiveContext) {
-	if a.downstreamDemand <= 0 {
-		return
+// flush emits batches of at most maxSize elements while downstream demand is
+// available: every full batch, and with partial set (timer fired, upstream
+// completed) also the remaining shorter one. What cannot be emitted for lack of
+// demand stays in the window and is emitted by the next streamRequest.
+func (a *batchFlowActor[T]) flush(rctx *actor.ReceiveContext, partial bool) {
+	size := max(a.maxSize, 1)
+	for len(a.window) > 0 && (partial || len(a.window) >= size) {
+		if a.downstreamDemand <= 0 {
+			a.flushDue = a.flushDue || partial
+			return
+		}
+		n := min(len(a.window), size)
+		batch := make([]T, n)
+		copy(batch, a.window[:n])
+		a.window = append(a.window[:0], a.window[n:]...)
+		a.seqNo++
+		a.metrics.elementsOut.Add(1)
+		rctx.Tell(a.downstream, &streamElement{
+			subID: a.subID,
+			value: batch,
+			seqNo: a.seqNo,
+		})
+		a.downstreamDemand--
 	}
-	batch := make([]T, len(a.window))
-	copy(batch, a.window)
-	a.window = a.window[:0]
-	a.seqNo++
-	a.metrics.elementsOut.Add(1)
-	rctx.Tell(a.downstream, &streamElement{
-		subID: a.subID,
-		value: batch,
-		seqNo: a.seqNo,
-	})
-	a.downstreamDemand--
+	if len(a.window) == 0 {
+		a.flushDue = false
+	}
 }
 
 // maybeRequestUpstream refills upstream credit when it falls below the threshold.
 func (a *batchFlowActor[T]) maybeRequestUpstream(rctx *actor.ReceiveContext) {
+	if a.completing {
+		return
+	}
 	available := a.config.InitialDemand - a.upstreamCredit - int64(len(a.window))
 	if available <= 0 {
 		return
